@@ -138,6 +138,7 @@ func Run(c *vk.Ctx) {
 	}
 	c.Note(fmt.Sprintf("alphabet=%d kinds, shapes(depth<=2)=%d, pairs with total depth<=%d, configs=%d, value pairs=%d, output forms=10 (top tree peek dot dot+call_tree traces topproto callgrind callgrind+call_tree web/top)", len(sigma), len(shapes), maxSum, len(cfgs), len(valuePairs)))
 	var idx int64
+	selectorPart(c, sigma, shapes, depthOf, &idx)
 	for i := range shapes {
 		if c.Mine(idx) {
 			checkProfile(c, sigma, shapes[i], nil, -1, cfgs)
@@ -158,6 +159,25 @@ func Run(c *vk.Ctx) {
 					checkProfile(c, sigma, shapes[i], shapes[j], v, cfgs)
 				}
 				idx++
+			}
+		}
+	}
+	// diamonds: [x z] and [x y z] over a1 a2 b c - the smallest profiles in which an edge x->z coexists
+	// with another path from x to z (the situation the redundant-edge removal of graphical reports acts on)
+	for x := 0; x < 4; x++ {
+		for y := 0; y < 4; y++ {
+			for z := 0; z < 4; z++ {
+				for v := 0; v < 2; v++ {
+					if c.Mine(idx) {
+						if c.Expired() {
+							c.Cap(fmt.Sprintf("time budget: stopped at profile index %d", idx))
+							return
+						}
+						checkProfile(c, sigma, enum.Shape{{x}, {z}}, enum.Shape{{x}, {y}, {z}}, v, cfgs)
+						c.Count("family/diamond", 1)
+					}
+					idx++
+				}
 			}
 		}
 	}
@@ -367,8 +387,9 @@ func checkOthers(c *vk.Ctx, cs Case, a *ap.AP, cfg model.Cfg, ref *model.Rep, da
 			c.Violationf(cs.Out+"/entries"+classSuffix(a, cfg), cs, "want %v\n got %v\n%s", want2, rows, r.Out)
 			continue
 		}
-		// Edges: dot drops redundant edges, so the shown edges must be a
-		// sub-multiset of the reference edges with the same weights.
+		// Edges: the shown edges are exactly the reference edges with the same weights: the totals
+		// of these profiles are so small that both cutoffs are 0 (nothing is trimmed), and only
+		// residual edges - there are none in an untrimmed report - may be dropped as redundant.
 		wantE := map[model.ERow]int{}
 		for _, e := range ref2.EdgeRows(false) {
 			wantE[e]++
@@ -383,6 +404,12 @@ func checkOthers(c *vk.Ctx, cs Case, a *ap.AP, cfg model.Cfg, ref *model.Rep, da
 				break
 			}
 			wantE[e]--
+		}
+		for e, n := range wantE {
+			if n > 0 {
+				c.Violationf(cs.Out+"/edge-missing"+classSuffix(a, cfg), cs, "edge %v of the reference %v is not shown\n%s", e, ref2.EdgeRows(false), r.Out)
+				break
+			}
 		}
 	}
 
